@@ -148,13 +148,32 @@ def run_guard(model: Model, res, classes: Optional[List[ClassInfo]] = None):
     classes = classes or ([model.cls("Asset"), model.cls("Broker")] + sorted(model.subclasses("Market"), key=lambda c: c.name))
     n_sites = 0
     n_funcs = 0
+    # a private helper whose decrement is not guarded inside the helper itself is analysed again through the methods of
+    # its class that call it (the guard of an extracted step may live in the caller)
+    def _callers(c, f):
+        out = []
+        for g in c.methods.values():
+            if g is f:
+                continue
+            for n in ast.walk(g.node):
+                if isinstance(n, ast.Call) and isinstance(n.func, ast.Attribute) and n.func.attr == f.name \
+                        and isinstance(n.func.value, ast.Name) and n.func.value.id == "self":
+                    out.append(g)
+                    break
+        return out
+
+    work = []
     for c in classes:
         for name, f in c.methods.items():
             sites = _decrement_sites(f)
-            if not sites:
-                continue
-            n_funcs += 1
-            n_sites += len(sites)
+            if sites:
+                work.append((c, f, sites, None))
+    while work:
+        c, f, sites, helper = work.pop(0)
+        if True:
+            if helper is None:
+                n_funcs += 1
+                n_sites += len(sites)
             try:
                 paths = Evaluator(model, opaque_funcs=OPAQUE).effect_paths(f, EFFECT_CALLS, c)
             except Unreadable as e:
@@ -164,11 +183,21 @@ def run_guard(model: Model, res, classes: Optional[List[ClassInfo]] = None):
             for conds, env, ret in paths:
                 if isinstance(ret, Raise):
                     continue
+                # trial updates: a holding whose last store on this path puts back the value it had on entry
+                restored = set()
+                for e in env.get("$fx", ()):
+                    if e[0] == "store" and isinstance(e[1], tuple):
+                        if e[2] == "set" and isinstance(e[3], Rat) and e[3] == Rat.atom(e[1]):
+                            restored.add(repr(e[1]))
+                        else:
+                            restored.discard(repr(e[1]))
                 for e in env.get("$fx", ()):
                     if e[0] != "store":
                         continue
                     _, tgt, how, val = e[:4]
                     if not (isinstance(tgt, tuple) and tgt[0] == "attr" and tgt[2] in HOLDING_FIELDS):
+                        continue
+                    if repr(tgt) in restored:
                         continue
                     cur = e[4] if len(e) > 4 else None
                     H = cur if isinstance(cur, Rat) else Rat.atom(tgt)
@@ -205,6 +234,18 @@ def run_guard(model: Model, res, classes: Optional[List[ClassInfo]] = None):
                     if why is None:
                         key = (repr(tgt), how)
                         problems.setdefault(key, (tgt, how, val, conds))
+            if problems and helper is None and f.name.startswith("_") and not f.name.endswith("__") \
+                    and f.name.lstrip("_") not in {e.lstrip("_") for e in EFFECT_CALLS}:
+                cs = _callers(c, f)
+                try:
+                    for g in cs:
+                        Evaluator(model, opaque_funcs=OPAQUE).effect_paths(g, EFFECT_CALLS, c)
+                except Unreadable:
+                    cs = []  # a caller outside the evaluator's language: the helper must then hold on its own
+                if cs:
+                    for g in cs:
+                        work.append((c, g, sites, f))
+                    continue
             ok = not problems
             res.ob("R-GUARD", f"{f.qualname}: {len(sites)} decrement site(s), {checked} path instances guarded or clamped by the holding",
                    f.loc(sites[0]), ok=ok)
@@ -212,6 +253,9 @@ def run_guard(model: Model, res, classes: Optional[List[ClassInfo]] = None):
                 field = tgt[2]
                 site = [s for s in sites if (s.target.attr if isinstance(s, ast.AugAssign) else s.targets[0].attr) == field]
                 node = site[0] if site else sites[0]
+                if not (f.node.lineno <= node.lineno <= (f.node.end_lineno or node.lineno)):
+                    owner = [g for g in c.methods.values() if g.node.lineno <= node.lineno <= (g.node.end_lineno or 0)]
+                    f = owner[0] if owner else f
                 res.find("R-GUARD", f.qualname, f"unguarded decrement of {field}: {ast.unparse(node)[:90]}", f.loc(node),
                          f"{f.qualname}: `{ast.unparse(node)[:120]}` reduces the holding `{field}` by an amount that is neither "
                          f"compared with nor clamped to the holding on some path (guards on that path: "
